@@ -22,6 +22,12 @@
 //                                                        pointing to one of the two copies at random (shared genes get
 //                                                        unshared or stay shared at random), other rows random
 //     intron <set> <seed> <rows> <nex>                   the same active code, every inactive gene replaced at random
+//     numload <set> <seed> <rows> <nex> <mode>           integer ephemeral constants (`integer::number`) whose parameter is
+//                                                        outside what `init` draws: mode load = the program is written
+//                                                        as text and read with i_mep::load (values >= 2^31, <= -2^31,
+//                                                        fractions, 1e300 …; libstdc++ does not read "nan" / "inf": such
+//                                                        a text is reported as `load=0`), mode par = NaN / ±inf / … put
+//                                                        into the public member gene::par and installed with replace
 //     swap <set> <seed> <rows> <nex>                     ONE src_interpreter object; the individual it points to is
 //                                                        assigned other programs (of the same shape) between runs
 // one answer line per request: a transcript of items separated by " ;; "
@@ -43,7 +49,9 @@
 // active expression tree is evaluated recursively, without memo and without an instruction
 // pointer, by calling symbol::eval with a params object that recurses ("skip" when the tree is
 // larger than a budget); a variable is NOT evaluated through vita::variable::eval: the oracle reads the
-// feature whose index this harness gave the variable when it built the symbol set.
+// feature whose index this harness gave the variable when it built the symbol set; an integer ephemeral constant is
+// NOT evaluated through integer::number::eval: the oracle converts the gene's parameter itself (documented
+// behaviour: truncation towards zero, saturation at INT_MIN / INT_MAX, NaN -> 0).
 #include "c01_wire.h"
 
 #include "kernel/vita.h"
@@ -60,6 +68,7 @@
 #include <map>
 #include <memory>
 #include <set>
+#include <sstream>
 #include <variant>
 
 using namespace vita;
@@ -70,6 +79,22 @@ struct budget_exceeded {};
 
 // ---- the oracle ---------------------------------------------------------------------------
 using var_index_t = std::map<const symbol *, unsigned long>;
+
+// integer ephemeral constants of the symbol sets (filled by symset::num)
+std::set<const symbol *> &number_symbols()
+{
+  static std::set<const symbol *> s;
+  return s;
+}
+
+// the documented double -> int conversion of integer::number, written independently of int.h
+value_t own_number_value(double v)
+{
+  if (std::isnan(v)) return value_t(0);
+  if (v >= 2147483647.0) return value_t(std::numeric_limits<int>::max());
+  if (v <= -2147483648.0) return value_t(std::numeric_limits<int>::min());
+  return value_t(static_cast<int>(std::trunc(v)));
+}
 
 struct tree_params : symbol_params
 {
@@ -88,6 +113,8 @@ struct tree_params : symbol_params
     if (++*steps > 400000) throw budget_exceeded();
     if (const auto it = vars->find(prg[l].sym); it != vars->end())
       return (ex && it->second < ex->size()) ? (*ex)[it->second] : value_t();
+    if (number_symbols().count(prg[l].sym))
+      return own_number_value(prg[l].par);
     return prg[l].sym->eval(*this);
   }
   value_t fetch_arg(unsigned i) override
@@ -136,6 +163,12 @@ struct symset
   {
     symbol *s = prob.sset.insert<S>(std::forward<A>(a)...);
     desc[s] = "F:" + s->name();
+    return s;
+  }
+  template<class... A> symbol *num(A &&... a)     // an integer ephemeral constant
+  {
+    symbol *s = fn<integer::number>(std::forward<A>(a)...);
+    number_symbols().insert(s);
     return s;
   }
   void var(char dom, category_t c)
@@ -203,8 +236,8 @@ std::unique_ptr<symset> make_set(const std::string &name)
   {
     int_functions(*s, 0);
     for (int k = 0; k < 3; ++k) s->var('i', 0);
-    s->fn<integer::number>(cvect{0});
-    s->fn<integer::number>(cvect{0}, 2000000000, 2147483647);
+    s->num(cvect{0});
+    s->num(cvect{0}, 2000000000, 2147483647);
     s->ki(0, 0); s->ki(-1, 0); s->ki(31, 0); s->ki(std::numeric_limits<int>::min(), 0);
   }
   else if (name == "str2")          // two categories: 0 = real, 1 = string
@@ -233,7 +266,7 @@ std::unique_ptr<symset> make_set(const std::string &name)
     s->fn<str::ife>(cvect{2, 1});       // compares strings, hands back ints
     s->fn<real::ifl>(cvect{0, 2});
     s->var('d', 0); s->var('i', 1); s->var('s', 2); s->var('d', 0);
-    s->fn<real::real>(cvect{0}); s->fn<integer::number>(cvect{1});
+    s->fn<real::real>(cvect{0}); s->num(cvect{1});
     s->kd(-0.0, 0); s->ki(7, 1); s->ks("car", 2); s->ks("plane", 2);
   }
   else if (name == "illtyped")      // NOT strongly typed: booleans and strings leak into real arguments
@@ -866,6 +899,87 @@ int main()
         for (unsigned k = 0; k < members; ++k)
           out += (out.empty() ? "" : " ;; ") + program(ss, ta[k]) + per[k];
         out += tl;
+      }
+      else if (t.size() == 6 && t[0] == "numload" && (t[1] == "int" || t[1] == "typed3") &&
+               (t[5] == "load" || t[5] == "par"))
+      {
+        symset &ss = *sets[t[1]];
+        const unsigned long seed = std::stoul(t[2]);
+        const unsigned rows = std::stoul(t[3]), nex = std::stoul(t[4]);
+        const bool by_load = t[5] == "load";
+        ss.prob.env.mep.code_length = rows;
+        ss.prob.env.mep.patch_length = 1 + seed % std::min<unsigned long>(rows - 1, 4);
+        random::seed(seed);
+        verif::splitmix r(seed);
+        i_mep a(ss.prob);
+        if (r.chance(0.5)) a.mutation(0.3, ss.prob);
+        a = start_at_function(a);
+        // more ephemeral constants among the active terminals
+        std::vector<const symbol *> nums;
+        for (const symbol *n : number_symbols())
+          if (ss.desc.count(n)) nums.push_back(n);
+        if (nums.empty()) { std::cout << "bad-op no number\n"; continue; }
+        for (const locus &l : active_loci(a))
+          if (a[l].sym->terminal() && a[l].sym->category() == nums[0]->category() && r.chance(0.6))
+            a = a.replace(l, gene(*terminal::cast(nums[r.below(nums.size())])));
+        static const char *TXT[] = {"2147483647", "2147483648", "-2147483648", "-2147483649", "1e10", "-3e9", "1e300",
+                                    "-1e300", "0.5", "-0.99", "2147483647.5", "-2147483648.5", "4294967296", "1e19",
+                                    "2.5e9", "2147483646.999", "-2147483647.999", "1e-320", "-0.0", "9007199254740993",
+                                    "2147483646", "-2147483647", "1.7976931348623157e308", "-1.7976931348623157e308"};
+        static const double SPC[] = {std::numeric_limits<double>::quiet_NaN(), -std::numeric_limits<double>::quiet_NaN(),
+                                     std::numeric_limits<double>::infinity(), -std::numeric_limits<double>::infinity(),
+                                     2147483648.0, -2147483649.0, 1e300, -1e300, 5e-324, -0.0, 2147483647.5,
+                                     -2147483648.5, 4294967296.0, 2147483646.5, -2147483647.5};
+        i_mep b;
+        if (by_load)
+        {
+          // the text form of individual::save, the parameters of (most) ephemeral constants replaced
+          std::ostringstream txt;
+          txt << "0\n" << a.size() << ' ' << a.categories() << '\n';
+          for (index_t i = 0; i < a.size(); ++i)
+            for (category_t c = 0; c < a.categories(); ++c)
+            {
+              const gene &g = a[locus{i, c}];
+              txt << g.sym->opcode();
+              if (g.sym->terminal() && terminal::cast(g.sym)->parametric())
+              {
+                txt << ' ';
+                if (number_symbols().count(g.sym) && r.chance(0.8)) txt << TXT[r.below(sizeof TXT / sizeof *TXT)];
+                else save_float_to_stream(txt, g.par);
+              }
+              for (unsigned k = 0; k < g.sym->arity(); ++k) txt << ' ' << g.args[k];
+              txt << '\n';
+            }
+          txt << a.best().index << ' ' << a.best().category << '\n';
+          std::istringstream in(txt.str());
+          if (!b.load(in, ss.prob.sset) || !b.is_valid()) { std::cout << "bad-op numload: load failed\n"; continue; }
+          // what libstdc++ does with "nan" / "inf": the individual is not loaded (recorded, not an error)
+          out = "L nan-text-loads=";
+          {
+            std::ostringstream o2;
+            o2 << "0\n1 1\n" << nums[0]->opcode() << " nan\n0 0\n";
+            std::istringstream i2(o2.str());
+            i_mep c2;
+            out += c2.load(i2, ss.prob.sset) ? "1" : "0";
+          }
+          out += " ;; ";
+          std::string tr;
+          exercise(ss, b, draw_examples(ss, r, nex), tr);
+          out += tr;
+        }
+        else
+        {
+          b = a;
+          for (const locus &l : active_loci(a))
+            if (number_symbols().count(a[l].sym) && r.chance(0.8))
+            {
+              gene g(a[l]);
+              g.par = SPC[r.below(sizeof SPC / sizeof *SPC)];
+              b = b.replace(l, g);
+            }
+          if (!b.is_valid()) { std::cout << "bad-op numload: invalid\n"; continue; }
+          exercise(ss, b, draw_examples(ss, r, nex), out);
+        }
       }
       else if (t.size() == 5 && (t[0] == "layout" || t[0] == "intron" || t[0] == "swap") && sets.count(t[1]) &&
                t[1] != "wide")
